@@ -88,13 +88,53 @@ pub fn run_hist(p: &HistProp, tier: &str, rep: &mut Report) {
     let budget = std::env::var("VERIF_BUDGET_S").ok().and_then(|x| x.parse().ok()).unwrap_or((p.budget_s)(tier));
     let deadline = Some(Instant::now() + Duration::from_secs(budget));
     let mut names = Vec::new();
+    let mut scripted_steps = 0u64;
+    let mut scripts_run: Vec<String> = Vec::new();
     for (name, mk) in (p.scenarios)(tier) {
         let sc = mk();
         assert_eq!(sc.name, name, "scenario name mismatch");
         let (st, v) = bfs(&sc, &refs, &Limits { max_states: p.max_states, deadline });
         rep.add_stats(&sc.name, &st);
         rep.add_violations(v);
+        // scripted long histories of this scenario
+        for (sname, script) in &sc.scripts {
+            let mut found: Vec<crate::engine::Violation> = Vec::new();
+            let mut done = 0usize;
+            // the script is cut where a step is not enabled any more (an earlier step failed)
+            let script: &[Op] = {
+                let mut w = sc.replay(&[]);
+                let mut cut = 0;
+                for op in script.iter() {
+                    if w.dead || !w.enabled(op) {
+                        break;
+                    }
+                    w.apply(*op, false);
+                    cut += 1;
+                }
+                &script[..cut]
+            };
+            for k in 1..=script.len() {
+                let (w, st) = sc.replay_observed(&script[..k]);
+                done = k;
+                for o in &refs {
+                    o.check(&sc, &script[..k], &w, &st, &mut found);
+                    if !w.dead && !w.m.diverged {
+                        o.on_new_state(&sc, &script[..k], &w, &mut found);
+                    }
+                }
+                if w.dead || w.m.diverged {
+                    break;
+                }
+            }
+            scripted_steps += done as u64;
+            scripts_run.push(format!("{}:{} ({} steps)", sc.name, sname, done));
+            rep.add_violations(found);
+        }
         names.push(name);
+    }
+    if !scripts_run.is_empty() {
+        rep.cov("scripted_histories", serde_json::json!(scripts_run));
+        rep.cov("scripted_steps_judged", serde_json::json!(scripted_steps));
     }
     rep.cov("scenario_count", serde_json::json!(names.len()));
     for a in p.assumptions {
